@@ -30,6 +30,7 @@ class C05(Prop):
     THEOREMS = [
         "PylifeVerif.C05.hcm_model_eq_guideline",
         "PylifeVerif.C05.hcm_batch_eq_single",
+        "PylifeVerif.C05.hcm_neg_mirror",
     ]
     PARTIAL = {"PylifeVerif.C05.hcm_batch_eq_single": "proved for all columns except the running strain extremes epsilon_min_LF / epsilon_max_LF (their update is decided on the first point's strains; checked by the oracle only, class batch-LF-first-point) and under SignPreserving (monotone law)"}
     RULE = ("case = (load sequence of the first point, positive integer load ratios of 1-4 points, exact stub notch law); every column of "
